@@ -48,6 +48,24 @@ T = {
  "C14": (True, "exhaustive 8-bit sweep + boundary/random sweeps of Lerp with analytic oracle under catch_unwind",
          "Runtime monitoring of Lerp::lerp: all 65 536 pairs of u8 and of i8 over a dense x grid, boundary and random f32-representable pairs for the wider types, a strided full x axis for boundary pairs (thorough), glam vectors against scalar lerp; ends exact, lerp(a,a,x)=a, between, monotone, nearest, no panic.",
          "Wide integer types: 2 ulp32 slack for f32 arithmetic.", "§4 C14"),
+ "C15": (True, "translation-style differential monitor: generated timeline! sentences compiled for real vs. their builder twins; compile-fail observation via cargo check JSON diagnostics",
+         "Runtime monitoring of generated programs: 400 (quick) / 6000 (thorough) sentences drawn from the macro grammar (all argument kinds, literal forms, shuffled order, bracketed merges) are compiled by the real rustc+proc-macro and each macro-built timeline is compared with the builder-built twin on metadata and on values at ~140 times; ill-formed sentences of the four classes are compiled in a second crate and every one must draw a compiler error attributed to its line.",
+         "Trusts rustc/cargo; sentences whose f32 numbers differ by one ulp between macro and reading are compared within an envelope instead of bit-exactly.", "§4 C15"),
+ "C16": (True, "differential monitor: generated animator! blocks vs. StateAnimatorBuilder twins driven by the same exhaustive + random histories",
+         "Runtime monitoring of generated programs: 150 (quick) / 3000 (thorough) animator! blocks covering every grammar alternative are compiled for real next to their builder twins; both animators are driven through all 4096 histories of length 4 over an 8-operation alphabet plus 50 random long histories and compared bit-for-bit after every operation.",
+         "Numbers restricted to those where macro and reading coincide in f32 (C15 covers number parsing).", "§4 C16"),
+ "C17": (True, "generated struct-shape family compiled with derive(Animate), checked with C01's model oracle, sentinel oracle and compile-fail observation",
+         "Runtime monitoring of generated programs: 120 (quick) / 1500 (thorough) struct shapes (field counts/types, #[animate] subsets, visibilities, local and remote proxies) are compiled for real; per shape the C01 model oracle, the untouched-field sentinel oracle, keyframe_from and the four accessors are checked, and setters for non-animated fields must be rejected by the compiler.",
+         "Same assumptions as C01; private shapes cannot be probed from outside their module in the compile-fail crate.", "§4 C17"),
+ "C18": (True, "trace-invariant monitor over exhaustive and random frame/operation schedules in a real bevy App with a hand-driven clock",
+         "Runtime monitoring of the real plugin: every frame-delta history of length 6 (quick) / 8 (thorough) over {0, 1/512 s, 1/8 s, 64 s} for 38 timelines, every (operation, delta) history of length 4/5, and random 50-300 frame histories (one or two animated components, 4 registration orders, single- and multi-threaded executor); invariants 1-8 checked after every frame.",
+         "bevy 0.11.3 App/Time/Events trusted; after a hot set_timeline only invariants 1,2,3,7,8 are demanded until the next reset.", "§4 C18"),
+ "C19": (True, "online trace-specification checker with candidate model states (nondeterministic system order / race outcome) over exhaustive and random histories in a real bevy App",
+         "Runtime monitoring of selector/chain: every history of length 4 (quick) / 5 (thorough) over {no-op, assign 4 keys} x 4 frame deltas for 30 configurations (chains with cycles/self-loops/missing entries, second animated component) plus random long histories; each frame must be explained by the specification under some system order and race outcome.",
+         "chain/select are mutually unordered in mina's registration, so either order is accepted; the explicit-assignment race accepts both documented outcomes.", "§4 C19"),
+ "C20": (True, "hostile-alphabet monitor under catch_unwind with NaN/inf scanning and a dev-vs-release output-log diff (overflow-checks as arithmetic sanitizer)",
+         "Runtime monitoring with extreme but valid configurations (repeat counts up to u32::MAX, cycles/delays from MIN_POSITIVE to f32::MAX, boundary positions, +-1e37 values, full-range integer properties under all easings, times at every boundary +-1 ulp and up to f32::MAX, animator advances beyond Duration::MAX): every call under catch_unwind, outputs scanned for non-finite values, duration() compared with the documented total, and the identical seeded workload run in the dev (overflow-checks, debug-assertions) and release builds with the output logs diffed.",
+         "Extreme negative delays and values beyond 1e37 are outside the generated space.", "§4 C20"),
 }
 PENDING = "check not built yet in this round (planned in DESIGN.md §4); not claimed until its monitor exists"
 
@@ -63,7 +81,7 @@ def main():
                 "thorough_cmd": f"./vcheck {pid} thorough",
                 "evidence_file": f"/verif/evidence/{pid}.json",
                 "replay_cmd_template": f"./vcheck {pid} --replay {{path}}",
-                "engine": "mina_verif",
+                "engine": "mina_verif_bevy" if pid in ("C18", "C19") else ("gen" if pid in ("C15", "C16", "C17") else "mina_verif"),
                 "level_claimed": {"category": "exploration", "text": text, "design_ref": ref},
                 "level_note": note,
                 "technique": tech,
@@ -77,12 +95,16 @@ def main():
             "guard": "cargo feature `verif-hooks` on mina_core (off by default)",
             "enable": "harness depends on mina_core with features=[\"verif-hooks\"] via path=/repo/core",
             "baseline_off_cmd": "cd /repo && cargo nextest run --workspace --no-fail-fast --offline",
-            "source_commits": [],
+            "source_commits": ["7b22e27"],
             "add_only": True,
         },
         "engines": [
-            {"name": "mina_verif", "path": "/verif/harness", "serves_properties": [c["property_id"] for c in checks],
+            {"name": "mina_verif", "path": "/verif/harness", "serves_properties": [f"C{n:02d}" for n in list(range(1, 15)) + [20]],
              "kind_free_text": "Rust harness linking /repo by path: workload generators, reference models, relational oracles, evidence writer"},
+            {"name": "mina_verif_bevy", "path": "/verif/harness_bevy", "serves_properties": ["C18", "C19"],
+             "kind_free_text": "Real bevy App with AnimationPlugin and a hand-driven Time resource; trace-invariant monitors"},
+            {"name": "gen", "path": "/verif/gen", "serves_properties": ["C15", "C16", "C17"],
+             "kind_free_text": "Python generators of macro sentences / animator blocks / struct shapes; generated crates compiled for real and linked with mina_verif::genrt; compile-fail observation via cargo check JSON"},
         ],
         "checks": checks,
         "not_applicable": na,
